@@ -246,7 +246,7 @@ def gen_case(rng, tier, ctx, i):
     if r < 0.6:
         rec = next_sweep(i, ctx.seed)
     else:
-        o = recipes.Opts(depth=rng.choice([2, 3, 4]), maxfan=3, nleaf=rng.choice([3, 4, 6, 8]), p_int=0, p_share=0, p_copy=0.05,
+        o = recipes.Opts(depth=rng.choice([2, 3, 4]), maxfan=rng.choice([3, 3, 5, 6]), nleaf=rng.choice([3, 4, 6, 8]), p_int=0, p_share=0, p_copy=0.05,
                          p_explicit=0.4, odd_ids=0)
         rec = common.model_case(rng, tier, o)
         if rec is None:
